@@ -46,6 +46,9 @@ BASE_SHAPES = {
     "agg": [comp("r", replicate=2, shutOn=KI, outs=(1, 2)), comp("x", shutOn=KI, outs=(1, 2)), comp("g", prods=["r", "x"], agg=True, outs=(1,))],
     # replicated follower then aggregation
     "aggchain": [comp("r", replicate=2, shutOn=KI, outs=(1, 2)), comp("m", prods=["r"], outs=(1, 4)), comp("g", prods=["m"], agg=True, outs=(1,))],
+    # cross-stage consumers of a producer that fails while its own stage is still winding down (slow sibling s)
+    "xfail": [comp("a", outs=(1, 4)), comp("s", outs=(1,)), comp("b", stage=1, prods=["a"], outs=(1,))],
+    "aggfail": [comp("r", replicate=2, outs=(1, 4)), comp("s", outs=(1,)), comp("g", stage=1, prods=["r"], agg=True, outs=(1,))],
     # restart budgets
     "restart": [comp("a", maxR=1, outs=(3, 6, 8)), comp("b", prods=["a"], maxR=0, outs=(1, 3, 5)), comp("c", maxR=-1, restOn=("ResourceExhausted", "KnownIssue"), outs=(6, 7, 8))],
     # diamond over two stages with a final-stage leaf that may be shut down
@@ -53,7 +56,7 @@ BASE_SHAPES = {
                 comp("d", stage=1, prods=["b", "c"], outs=(1, 4))],
 }
 
-QUICK = ["chain2", "chain2s", "chain3", "stages2", "fanin", "obs", "obs2", "obschain", "agg", "restart"]
+QUICK = ["chain2", "chain2s", "chain3", "stages2", "fanin", "obs", "obs2", "obschain", "agg", "restart", "xfail", "aggfail"]
 THOROUGH = QUICK + ["aggchain", "diamond"]
 
 
